@@ -636,8 +636,10 @@ class QueryObjectDescriptor(CanBehaveLikeAVariable[T], ABC):
         # variables it is built from (the arguments of a constructed instance).
         for variable in self.selected_variables:
             variable._var_._reset_only_my_cache_()
-            for argument in getattr(variable._var_, '_child_vars_', {}).values():
-                argument._reset_cache_()
+            if isinstance(variable._var_, Variable):
+                # (not by attribute lookup: inside a symbolic block that builds an expression on a selected mapping)
+                for argument in variable._var_._child_vars_.values():
+                    argument._reset_cache_()
 
     def _evaluate_(self, selected_vars: Optional[Iterable[CanBehaveLikeAVariable]] = None,
                    sources: Optional[Dict[int, HashedValue]] = None,
